@@ -294,7 +294,9 @@ def run(ctx):
     # applications that catch a refusal of start_response and carry on: every raise site x
     # every way of producing output afterwards, and random scripts with swallowed refusals
     swallow = T.swallow_cases(rng, ctx.tier) + T.random_swallow_cases(rng, ctx.tier)
-    cases = cases + table + swallow
+    # the server's own error path fed hostile text (traceback text, parser messages, ident): the 500 /
+    # 4xx head stays a function of server strings, whatever '%', '{}', CR/LF, NUL, non-latin-1 the BODY carries
+    cases = cases + table + swallow + T.hostile_error_cases(rng, ctx.tier)
     lines = [T.ser_case(c) for _, c in cases]
     answers = runner.query(lines) if runner is not None else [None] * len(lines)
     agree = True
